@@ -27,7 +27,8 @@ REAL_FILES = ["a.c", "b.h", "n.txt", "d/a.c", "d/e/b.c", "x y.c", "[z].c", "q?.c
 REAL_FILES += [f"ext/s{i}{e}" for i, e in enumerate(sorted(SRC_EXT))]
 REAL_FILES += ["ext/n1.C", "ext/n2.H", "ext/n3.py", "ext/n4.f95", "ext/n5.c.in", "ext/n6.CPP", "ext/n7.for", "ext/n8.hpp~", "ext/c", "ext/.c"]
 LINKS = {"lnk.c": "a.c", "out.c": "../outside/o.c", "old.c": "../root-old/o.c", "dl": "d", "dangling.c": "nowhere.c", "d/up.h": "../b.h",
-         "tmpl.h": "ext/n5.c.in"}      # a source-like name for a file that is not a source file
+         "tmpl.h": "ext/n5.c.in",      # a source-like name for a file that is not a source file
+         "deep": "d/e"}                # a directory link whose target has another parent than the link: deep/.. is d, not the root
 
 POOL = ["a.c", "/a.c", "*.c", "*.h", "d/", "/d/", "d", "e/", "d/e/", "d/e", "**/b.c", "d/**", "**/e/**", "d/*/b.c", "?.c", "q?.c", "q\\?.c",
         "[z].c", "\\[z\\].c", "[ab].c", "x y.c", "x*", "#a.c", "\\#a.c", "", "!a.c", "!d/a.c", "!d/e/b.c", "!*.c", "dir.c", "dir.c/", "*.txt",
@@ -62,7 +63,9 @@ def queries(root):
           ("link:lnk.c", "lnk.c"), ("abslink:lnk.c", os.path.join(root, "lnk.c")), ("link:out.c", "out.c"), ("link:dangling.c", "dangling.c"),
           ("dirlink:dl/a.c", "dl/a.c"), ("dirlink:dl/e/b.c", os.path.join(root, "dl/e/b.c")), ("link:d/up.h", "d/up.h"),
           ("out:outside/o.c", os.path.join(root, "..", "outside", "o.c")), ("sib:root-old/o.c", os.path.join(root, "..", "root-old", "o.c")),
-          ("sibdotdot:root-old/o.c", "d/../../root-old/o.c"), ("link:old.c", "old.c"), ("dirlink:dl/dir.c", "dl/dir.c"), ("link:tmpl.h", "tmpl.h"), ("abslink:tmpl.h", os.path.join(root, "tmpl.h"))]
+          ("sibdotdot:root-old/o.c", "d/../../root-old/o.c"), ("link:old.c", "old.c"), ("dirlink:dl/dir.c", "dl/dir.c"), ("link:tmpl.h", "tmpl.h"), ("abslink:tmpl.h", os.path.join(root, "tmpl.h")),
+          ("linkdotdot:deep/../dir.c/in.c", "deep/../dir.c/in.c"), ("linkdotdot:deep/../b.h", "deep/../b.h"), ("linkdotdot:deep/../a.c", os.path.join(root, "deep/../a.c")),
+          ("linkdotdot:deep/../../a.c", "deep/../../a.c")]
     return q
 
 
